@@ -509,6 +509,8 @@ def run(ctx):
     check_solve_histories(ctx, cuqi, rng, 70 * S, bump)
     check_histories(ctx, cuqi, rng, 60 * S, bump)
     check_testproblems(ctx, cuqi, rng, thorough)
+    from harness.props.c18_testproblems import check_testproblem_models
+    check_testproblem_models(ctx, cuqi, rng, thorough)
 
 
 # ----------------------------------------------------------------------------------------------- A. time stepping
@@ -1306,7 +1308,7 @@ def check_observe_time(ctx, cuqi, rng, ncases, bump):
 # ----------------------------------------------------------------------------------------------- E. observe (steady)
 def check_observe_steady(ctx, cuqi, rng, ncases, bump):
     from cuqi.pde import SteadyStateLinearPDE
-    cases, lines = [], []
+    cases, lines, qlines = [], [], []
     for c in range(ncases):
         N = rng.choice([3, 4, 5, 6, 8])
         gs = np.zeros(N); gs[0] = dy(rng, -1, 1, 2)
@@ -1353,8 +1355,11 @@ def check_observe_steady(ctx, cuqi, rng, ncases, bump):
         cases.append(dict(N=N, gs=gs, go=go, gops=gops, go_final=go_final, u=u, om=om, omtok=omtok, omkind=omkind, W=W, gclass=gclass, equal_now=equal_now, sdt=sdt))
         gtok = "|".join([f"init:{grid_tok(gs)}:{grid_tok(go)}"] + [f"{o}:{grid_tok(v)}" for o, v, _ in gops[1:]])
         lines.append(f"obss {gtok} {qv(u)} {Wtok} {omtok}")
+        qlines.append(f"obsq {gtok} {qv(u)} {omtok}")
     outs = ctx.lean.drive(lines)
-    for cs, out in zip(cases, outs):
+    qouts = ctx.lean.drive(qlines)        # session 3: the same cases with the model's own exact quadratic spline (no leaf data)
+    spl = ctx.extra_cov.setdefault("c18_exact_spline", {"compared": 0, "both_refuse": 0, "interp_values": 0})
+    for cs, out, qout in zip(cases, outs, qouts):
         gs, go, u, om = cs["gs"], cs["go"], cs["u"], cs["om"]
         desc = {"grid_sol": gs.tolist(), "grid_obs": None if go is None else go.tolist(), "then_grid_obs": cs["go_final"].tolist() if len(cs["gops"]) > 1 else None,
                 "u": u.tolist(), "obs_map": cs["omtok"]}
@@ -1396,6 +1401,18 @@ def check_observe_steady(ctx, cuqi, rng, ncases, bump):
                     oracle_bad = True
                     ctx.fail(key, desc, "restriction at coinciding nodes, quadratic interpolant elsewhere, then map: " + short(e2), short(got),
                              "steady observation is not the solution restricted to the observation grid")
+        # exact-spline model (interp1d(kind='quadratic') transcribed: sorting, knots, collocation, de Boor, bounds)
+        qbr, qmo = qout.split(" ")
+        if qmo.startswith("err:") != (impl_err is not None):
+            ctx.disagree(key, desc, qmo[:100], ("err:" + impl_err) if impl_err else short(got), "exact quadratic-spline model and implementation differ in refusing the input")
+        elif impl_err is None:
+            spl["compared"] += 1
+            if qbr == "interp":
+                spl["interp_values"] += int(np.asarray(got).size)
+            if not arr_same(parse_arr(qmo), got):
+                ctx.disagree(key, desc, short(parse_arr(qmo)), short(got), "observation differs from the exact quadratic spline through the solution")
+        else:
+            spl["both_refuse"] += 1
         if mo.startswith("err:"):
             if impl_err is None:
                 ctx.disagree(key, desc, mo, short(got), "model refuses, implementation returns")
